@@ -502,7 +502,8 @@ example : (Pipeline.catOrder none [(some (.str "a"), 1), (some (.str "b"), 0), (
       (some (.str "c"), 1), (some (.str "a"), 1), (some (.str "b"), 0), (some (.str "a"), 0)] (1/5) "__NAN__" "__OTHER__").toOption.map
       (fun r => (r.grouped, r.order.lst)) =
     some ([.str "c"], [.str "b", .str "a", .str "__OTHER__", .str "__NAN__"]) := by decide +kernel-- ... and a value the user's order does not know is refused with an AssertionError (the hypotheses of catOrder_error_is_assertion hold)
-example : Pipeline.catOrder (some (GL.ofList [.str "a", .str "b"])) [(some (.str "a"), 1), (some (.str "q"), 0)] (1/5) "__NAN__" "__OTHER__" =
-    .error (Err.assertion "Unexpected value") := by decide +kernel
+example : (match Pipeline.catOrder (some (GL.ofList [.str "a", .str "b"])) [(some (.str "a"), 1), (some (.str "q"), 0)] (1/5) "__NAN__" "__OTHER__" with
+    | .error (Err.assertion m) => m == "Unexpected value"
+    | _ => false) = true := by decide +kernel
 example : (GL.ofList [Val.str "a", .str "b"]).WF ∧ Val.str "__OTHER__" ∉ (GL.ofList [Val.str "a", .str "b"]).values := by decide
 end C08
